@@ -1,7 +1,12 @@
 package nc
 
 import (
+	"fmt"
+	"go/constant"
 	"go/token"
+	"go/types"
+	"sort"
+	"strings"
 
 	"golang.org/x/tools/go/ssa"
 )
@@ -166,4 +171,1210 @@ func (cl *c13Counted) RunsEveryIteration(in ssa.Instruction) bool {
 		}
 	}
 	return true
+}
+
+// ---------------------------------------------------------------------------------------------------------------
+// Fresh state versus flushed state of the fast solver (fourth round).
+//
+// The solver's per-neuron arrays share one index layout, documented at the struct's count fields:
+//
+//	[0, biasNeuronCount)                    bias neurons
+//	[biasNeuronCount, sensorNeuronCount)    input neurons
+//	[sensorNeuronCount, totalNeuronCount)   output and hidden neurons
+//
+// For a function (the constructor, Flush) the model below computes, per array field and per one of these three
+// index ranges, the value the function leaves in every element of the range: "untouched", a canonical value, or
+// "ambiguous" (written on some paths / for some indices only, or with a value that cannot be named). It is a
+// forward replay of the function's array writes in execution order:
+//
+//   - make([]T, n) stored into the field: zero on every range (n must be the total count);
+//   - a counted loop (any spelling, see c13CountedLoopOf; or a range loop over an array of known length) that stores
+//     at its counter: the paths of one iteration are enumerated, the branch outcomes that compare the counter with
+//     a layout bound are evaluated for a counter inside the range, and the range is written with v when every
+//     feasible path stores v, untouched when none stores, ambiguous otherwise;
+//   - copy(dst[lo:], src[lo:]) between arrays of the same (total) length: dst[i] = src[i] on the ranges from lo on;
+//   - a call of another method of the solver on the same object: its writes are replayed in place;
+//   - anything else that writes the array (store at another index, store outside a loop, callee that is not a
+//     method of the solver, closure): ambiguous.
+//
+// A write that does not lie on every path to the function's (non-nil) returns makes the ranges it touches ambiguous
+// unless it stores what they hold already.
+
+var c13Breaks = []string{"0", "biasNeuronCount", "sensorNeuronCount", "totalNeuronCount"}
+
+// The three ranges of the layout, and as a fourth one the indices from totalNeuronCount on: no array has them, a write
+// there is a run-time panic, and a loop whose exit is not decided there (`i <= totalNeuronCount`) is not a reset.
+const c13NSeg = 4
+
+func c13Pos(sym string) int {
+	for i, b := range c13Breaks {
+		if b == sym {
+			return i
+		}
+	}
+	return -1
+}
+
+func c13SegName(k int) string {
+	if k+1 >= len(c13Breaks) {
+		return "[" + c13Breaks[k] + ", ...)"
+	}
+	return "[" + c13Breaks[k] + ", " + c13Breaks[k+1] + ")"
+}
+
+// effect of one event (or state) on one index range
+type c13Eff struct {
+	Kind int    // 0 untouched, 1 every element holds Val, 2 ambiguous
+	Val  string // canonical value (Kind 1) or the reason (Kind 2)
+}
+
+type c13Event struct {
+	at     ssa.Instruction
+	anchor *ssa.BasicBlock // the block whose execution implies that the whole event takes place
+	must   bool
+	arr    *types.Var
+	seg    [c13NSeg]c13Eff
+	what   string
+	sub    []*c13Event // a replayed callee
+}
+
+type c13Model struct {
+	p       *Prog
+	owner   *types.Named
+	scalars map[*ssa.Function]map[string]string    // ctor: canonical term of a value stored into a count field -> field
+	params  map[*ssa.Function]map[ssa.Value]string // ctor: parameter stored into a field -> field
+	makeLen map[*types.Var]string                  // array field -> layout symbol of its allocated length
+	state   map[*types.Var]bool                    // arrays that are run-time state (values read from them are not stable)
+	memo    map[*ssa.Function][]*c13Event
+	busy    map[*ssa.Function]bool
+	wsMemo  map[*ssa.Function]map[*types.Var]bool
+	// the constructor stores biasNeuronCount + inputNeuronCount into sensorNeuronCount
+	sensorIsSum bool
+}
+
+func newC13Model(p *Prog, owner *types.Named) *c13Model {
+	return &c13Model{p: p, owner: owner, scalars: map[*ssa.Function]map[string]string{}, params: map[*ssa.Function]map[ssa.Value]string{},
+		makeLen: map[*types.Var]string{}, state: map[*types.Var]bool{}, memo: map[*ssa.Function][]*c13Event{}, busy: map[*ssa.Function]bool{},
+		wsMemo: map[*ssa.Function]map[*types.Var]bool{}}
+}
+
+func (m *c13Model) isOwner(t types.Type) bool {
+	n, _ := deref(t).(*types.Named)
+	return n != nil && n == m.owner
+}
+
+// ownerField: v is the address of (or the value of) a field of the solver object.
+func (m *c13Model) ownerField(v ssa.Value) *types.Var {
+	switch x := v.(type) {
+	case *ssa.FieldAddr:
+		if m.isOwner(x.X.Type()) {
+			return fieldOf(x.X.Type(), x.Field)
+		}
+	case *ssa.Field:
+		if m.isOwner(x.X.Type()) {
+			return fieldOf(x.X.Type(), x.Field)
+		}
+	}
+	return nil
+}
+
+// learnCtor records what the constructor says about the layout: which values become the count fields, which
+// parameters become fields, and with which length every array is allocated.
+func (m *c13Model) learnCtor(fn *ssa.Function) {
+	tm := NewTermer(fn)
+	sc := map[string]string{}
+	pm := map[ssa.Value]string{}
+	Instrs(fn, func(_ *ssa.BasicBlock, _ int, in ssa.Instruction) {
+		st, ok := in.(*ssa.Store)
+		if !ok {
+			return
+		}
+		f := m.ownerField(st.Addr)
+		if f == nil {
+			return
+		}
+		if _, isC := st.Val.(*ssa.Const); isC {
+			return
+		}
+		if par, isP := st.Val.(*ssa.Parameter); isP {
+			pm[par] = f.Name()
+		}
+		if b, isB := f.Type().Underlying().(*types.Basic); isB && b.Info()&types.IsInteger != 0 {
+			sc[CanonTerm(tm.Of(st.Val))] = f.Name()
+		}
+	})
+	m.scalars[fn] = sc
+	m.params[fn] = pm
+	// does this constructor define the sensor count as bias + inputs?
+	var kb, ki, ks string
+	for k, name := range sc {
+		switch name {
+		case "biasNeuronCount":
+			kb = k
+		case "inputNeuronCount":
+			ki = k
+		case "sensorNeuronCount":
+			ks = k
+		}
+	}
+	if kb != "" && ki != "" && (ks == "("+kb+"+"+ki+")" || ks == "("+ki+"+"+kb+")") {
+		m.sensorIsSum = true
+	}
+	Instrs(fn, func(_ *ssa.BasicBlock, _ int, in ssa.Instruction) {
+		mk, ok := in.(*ssa.MakeSlice)
+		if !ok {
+			return
+		}
+		if f := m.madeFor(mk); f != nil {
+			s := m.sym(fn, mk.Len)
+			if old, seen := m.makeLen[f]; seen && old != s {
+				s = ""
+			}
+			m.makeLen[f] = s
+		}
+	})
+}
+
+// madeFor: the array field a make() result is stored into (nil if none or several).
+func (m *c13Model) madeFor(mk *ssa.MakeSlice) *types.Var {
+	var f *types.Var
+	if mk.Referrers() == nil {
+		return nil
+	}
+	for _, ref := range *mk.Referrers() {
+		if st, ok := ref.(*ssa.Store); ok && st.Val == ssa.Value(mk) {
+			g := m.ownerField(st.Addr)
+			if g == nil || (f != nil && f != g) {
+				return nil
+			}
+			f = g
+		}
+	}
+	return f
+}
+
+// sym names v as a layout symbol ("0", a count field, another integer constant) or "".
+func (m *c13Model) sym(fn *ssa.Function, v ssa.Value) string {
+	for i := 0; i < 4; i++ {
+		switch x := v.(type) {
+		case *ssa.Convert:
+			v = x.X
+			continue
+		case *ssa.ChangeType:
+			v = x.X
+			continue
+		}
+		break
+	}
+	switch x := v.(type) {
+	case *ssa.Const:
+		if k, ok := constInt(x); ok {
+			return itoa(int(k))
+		}
+		return ""
+	case *ssa.UnOp:
+		if x.Op == token.MUL {
+			if f := m.ownerField(x.X); f != nil {
+				return f.Name()
+			}
+		}
+	case *ssa.Field:
+		if f := m.ownerField(x); f != nil {
+			return f.Name()
+		}
+	case *ssa.Call:
+		if b, ok := x.Call.Value.(*ssa.Builtin); ok && b.Name() == "len" && len(x.Call.Args) == 1 {
+			if f, lo, hi, ok := m.arr(x.Call.Args[0]); ok && lo == nil && hi == nil {
+				return m.makeLen[f]
+			}
+			return ""
+		}
+	}
+	if sc := m.scalars[fn]; sc != nil {
+		if name, ok := sc[CanonTerm(NewTermer(fn).Of(v))]; ok {
+			return name
+		}
+	}
+	// the number of sensors spelled out: bias + inputs
+	if b, ok := v.(*ssa.BinOp); ok && b.Op == token.ADD && m.sensorIsSum {
+		x, y := m.sym(fn, b.X), m.sym(fn, b.Y)
+		if (x == "biasNeuronCount" && y == "inputNeuronCount") || (x == "inputNeuronCount" && y == "biasNeuronCount") {
+			return "sensorNeuronCount"
+		}
+	}
+	return ""
+}
+
+// arr resolves a slice value to the array field of the solver it denotes, with the bounds of one reslicing.
+func (m *c13Model) arr(v ssa.Value) (f *types.Var, low, high ssa.Value, ok bool) {
+	sliced := false
+	for i := 0; i < 6; i++ {
+		switch x := v.(type) {
+		case *ssa.Slice:
+			if sliced || x.Max != nil {
+				return nil, nil, nil, false
+			}
+			sliced = true
+			low, high = x.Low, x.High
+			v = x.X
+			continue
+		case *ssa.ChangeType:
+			v = x.X
+			continue
+		case *ssa.UnOp:
+			if x.Op == token.MUL {
+				if g := m.ownerField(x.X); g != nil {
+					if _, isSlice := g.Type().Underlying().(*types.Slice); isSlice {
+						return g, low, high, true
+					}
+				}
+			}
+		case *ssa.Field:
+			if g := m.ownerField(x); g != nil {
+				if _, isSlice := g.Type().Underlying().(*types.Slice); isSlice {
+					return g, low, high, true
+				}
+			}
+		case *ssa.MakeSlice:
+			if g := m.madeFor(x); g != nil {
+				return g, low, high, true
+			}
+		}
+		break
+	}
+	return nil, nil, nil, false
+}
+
+// evalCmp evaluates a comparison for an index value idx anywhere inside layout range k.
+func (m *c13Model) evalCmp(fn *ssa.Function, cond ssa.Value, idx ssa.Value, k int) (val, known bool) {
+	c, neg := c13StripNot(cond)
+	b, ok := c.(*ssa.BinOp)
+	if !ok {
+		return false, false
+	}
+	op := b.Op
+	var other ssa.Value
+	switch {
+	case b.X == idx:
+		other = b.Y
+	case b.Y == idx:
+		other = b.X
+		op = map[token.Token]token.Token{token.LSS: token.GTR, token.GTR: token.LSS, token.LEQ: token.GEQ, token.GEQ: token.LEQ, token.EQL: token.EQL, token.NEQ: token.NEQ}[op]
+	default:
+		return false, false
+	}
+	p := c13Pos(m.sym(fn, other))
+	if p < 0 {
+		return false, false
+	}
+	// idx in [B_k, B_{k+1}), 0 = B_0 <= B_1 <= B_2 <= B_3: p >= k+1 gives idx < sym, p <= k gives idx >= sym
+	below, notBelow := p >= k+1, p <= k
+	switch op {
+	case token.LSS:
+		val, known = below, below || notBelow
+	case token.GEQ:
+		val, known = notBelow, below || notBelow
+	case token.LEQ: // idx < sym implies idx <= sym
+		val, known = true, below
+	case token.GTR:
+		val, known = false, below
+	case token.EQL:
+		val, known = false, below
+	case token.NEQ:
+		val, known = true, below
+	default:
+		return false, false
+	}
+	if neg {
+		val = !val
+	}
+	return val, known
+}
+
+// val prints v canonically: the same text in the constructor and in a method means the same value.
+func (m *c13Model) val(fn *ssa.Function, ip *IterPath, v ssa.Value, idx ssa.Value, k int, depth int) string {
+	if depth > 8 {
+		return "?" + fn.Name() + ":" + v.Name()
+	}
+	if ip != nil {
+		v = ip.Resolve(v)
+	}
+	if idx != nil && v == idx {
+		return "i"
+	}
+	rec := func(x ssa.Value) string { return m.val(fn, ip, x, idx, k, depth+1) }
+	switch x := v.(type) {
+	case *ssa.Const:
+		if x.Value == nil {
+			return "0"
+		}
+		switch x.Value.Kind() {
+		case constant.Bool:
+			if constant.BoolVal(x.Value) {
+				return "true"
+			}
+			return "0"
+		case constant.Int, constant.Float:
+			f, _ := constant.Float64Val(x.Value)
+			return fmt.Sprintf("%g", f)
+		}
+		if x.Value.ExactString() == `""` {
+			return "0"
+		}
+		return x.Value.ExactString()
+	case *ssa.Convert:
+		return rec(x.X)
+	case *ssa.ChangeType:
+		return rec(x.X)
+	case *ssa.BinOp:
+		switch x.Op {
+		case token.LSS, token.LEQ, token.GTR, token.GEQ, token.EQL, token.NEQ:
+			if idx != nil && k >= 0 {
+				if b, known := m.evalCmp(fn, x, idx, k); known {
+					if b {
+						return "true"
+					}
+					return "0"
+				}
+			}
+		}
+		a, b := rec(x.X), rec(x.Y)
+		op := x.Op.String()
+		switch x.Op {
+		case token.ADD, token.MUL, token.EQL, token.NEQ, token.AND, token.OR, token.XOR:
+			if b < a {
+				a, b = b, a
+			}
+		case token.GTR:
+			a, b, op = b, a, "<"
+		case token.GEQ:
+			a, b, op = b, a, "<="
+		}
+		return "(" + a + op + b + ")"
+	case *ssa.UnOp:
+		switch x.Op {
+		case token.NOT:
+			switch in := rec(x.X); in {
+			case "true":
+				return "0"
+			case "0":
+				return "true"
+			default:
+				return "!" + in
+			}
+		case token.MUL:
+			if ia, ok := x.X.(*ssa.IndexAddr); ok {
+				if f, lo, hi, ok := m.arr(ia.X); ok && lo == nil && hi == nil {
+					s := "@" + f.Name() + "[" + rec(ia.Index) + "]"
+					if m.state[f] {
+						// the contents of a run-time array depend on when they are read
+						return "?state:" + fn.Name() + ":" + s
+					}
+					return s
+				}
+				// a constructor parameter that becomes a field shares its backing array with the field
+				if par, isPar := ia.X.(*ssa.Parameter); isPar {
+					if name, ok := m.params[fn][par]; ok {
+						return "@" + name + "[" + rec(ia.Index) + "]"
+					}
+				}
+				return "?" + fn.Name() + ":" + v.Name()
+			}
+			if f := m.ownerField(x.X); f != nil {
+				return "@" + f.Name()
+			}
+		}
+	case *ssa.Parameter:
+		if name, ok := m.params[fn][x]; ok {
+			return "@" + name
+		}
+	case *ssa.Call:
+		name, _ := calleeName(&x.Call)
+		var a []string
+		for _, arg := range x.Call.Args {
+			a = append(a, rec(arg))
+		}
+		if _, isB := x.Call.Value.(*ssa.Builtin); isB || x.Call.StaticCallee() != nil {
+			return name + "(" + strings.Join(a, ",") + ")"
+		}
+	}
+	return "?" + fn.Name() + ":" + v.Name()
+}
+
+func c13Opaque(s string) bool { return strings.Contains(s, "?") }
+
+// c13Iter is a loop with an index value that is Init (every entry edge; 0 when Inits is nil) in the first iteration and
+// one more in each following iteration, on whatever back edge the iteration ends. Nothing is said about how the
+// loop is left: the callers evaluate the exit tests like any other branch of the body.
+type c13Iter struct {
+	Loop  *Loop
+	Idx   ssa.Value
+	Inits []ssa.Value
+}
+
+// c13IterOf finds such an index among the header phis; when several qualify, one that `want` accepts is preferred.
+func c13IterOf(l *Loop, want func(ssa.Value) bool) (*c13Iter, bool) {
+	var found *c13Iter
+	for _, in := range l.Header.Instrs {
+		ph, isPhi := in.(*ssa.Phi)
+		if !isPhi {
+			break
+		}
+		var inits []ssa.Value
+		var step ssa.Value
+		ok := true
+		for i, e := range ph.Edges {
+			if l.Blocks[l.Header.Preds[i]] {
+				if !c13IsPlusOne(e, ph) || (step != nil && step != e) {
+					ok = false
+				}
+				step = e
+			} else {
+				inits = append(inits, e)
+			}
+		}
+		if !ok || step == nil || len(inits) == 0 {
+			continue
+		}
+		cand := &c13Iter{Loop: l, Idx: ph, Inits: inits}
+		// range loop over a slice: k = phi{-1, k+1}, and the body works with k+1 computed in the header
+		if inc := step.(*ssa.BinOp); inc.Block() == l.Header {
+			all := true
+			for _, e := range inits {
+				if k, isK := constInt(e); !isK || k != -1 {
+					all = false
+				}
+			}
+			if all {
+				cand = &c13Iter{Loop: l, Idx: inc}
+			}
+		}
+		if found == nil || (want != nil && want(cand.Idx) && !want(found.Idx)) {
+			found = cand
+		}
+	}
+	return found, found != nil
+}
+
+// writeSet: the array fields of the solver that fn or anything it calls may write (element stores and copy targets).
+func (m *c13Model) writeSet(fn *ssa.Function) map[*types.Var]bool {
+	if ws, ok := m.wsMemo[fn]; ok {
+		return ws
+	}
+	ws := map[*types.Var]bool{}
+	m.wsMemo[fn] = ws
+	re := m.p.Reachable([]*ssa.Function{fn}, nil)
+	for _, f := range re.RepoFuncs() {
+		Instrs(f, func(_ *ssa.BasicBlock, _ int, in ssa.Instruction) {
+			switch x := in.(type) {
+			case *ssa.Store:
+				if ia, ok := x.Addr.(*ssa.IndexAddr); ok {
+					if g, _, _, ok := m.arr(ia.X); ok {
+						ws[g] = true
+					}
+				}
+				if g := m.ownerField(x.Addr); g != nil {
+					if _, isSlice := g.Type().Underlying().(*types.Slice); isSlice {
+						ws[g] = true
+					}
+				}
+			case ssa.CallInstruction:
+				if b, ok := x.Common().Value.(*ssa.Builtin); ok && b.Name() == "copy" && len(x.Common().Args) == 2 {
+					if g, _, _, ok := m.arr(x.Common().Args[0]); ok {
+						ws[g] = true
+					}
+				}
+			}
+		})
+	}
+	return ws
+}
+
+func c13Amb(why string) [c13NSeg]c13Eff {
+	var s [c13NSeg]c13Eff
+	for k := range s {
+		s[k] = c13Eff{Kind: 2, Val: why}
+	}
+	return s
+}
+
+// events lists the array writes of fn in execution order.
+func (m *c13Model) events(fn *ssa.Function, ctor bool) []*c13Event {
+	if ev, ok := m.memo[fn]; ok {
+		return ev
+	}
+	if m.busy[fn] {
+		return nil
+	}
+	m.busy[fn] = true
+	defer delete(m.busy, fn)
+	p := m.p
+	loops := Loops(fn)
+	// the returns every must-event has to dominate
+	var rets []*ssa.BasicBlock
+	for _, b := range fn.Blocks {
+		if len(b.Instrs) == 0 {
+			continue
+		}
+		if ret, ok := b.Instrs[len(b.Instrs)-1].(*ssa.Return); ok {
+			if ctor && len(ret.Results) > 0 {
+				if c, isC := ret.Results[0].(*ssa.Const); isC && c.Value == nil {
+					continue
+				}
+			}
+			rets = append(rets, b)
+		}
+	}
+	must := func(anchor *ssa.BasicBlock) bool {
+		for _, rb := range rets {
+			if !(anchor == rb || anchor.Dominates(rb)) {
+				return false
+			}
+		}
+		return true
+	}
+	var evs []*c13Event
+	add := func(e *c13Event) { evs = append(evs, e) }
+	ambiguous := func(in ssa.Instruction, f *types.Var, why string) {
+		add(&c13Event{at: in, anchor: in.Block(), arr: f, seg: c13Amb(why), what: why})
+	}
+	loopStores := map[*Loop]map[*types.Var][]*ssa.Store{}
+	var loopOrder []*Loop
+	Instrs(fn, func(b *ssa.BasicBlock, _ int, in ssa.Instruction) {
+		il := InnermostLoop(loops, b)
+		switch x := in.(type) {
+		case *ssa.MakeSlice:
+			f := m.madeFor(x)
+			if f == nil {
+				return
+			}
+			if il != nil {
+				ambiguous(in, f, "allocated inside a loop at "+p.Pos(in.Pos()))
+				return
+			}
+			e := &c13Event{at: in, anchor: b, must: must(b), arr: f, what: "make at " + p.Pos(in.Pos())}
+			if m.sym(fn, x.Len) == "totalNeuronCount" {
+				for k := 0; k < c13NSeg-1; k++ {
+					e.seg[k] = c13Eff{Kind: 1, Val: "0"}
+				}
+			} else {
+				e.seg = c13Amb("allocated at " + p.Pos(in.Pos()) + " with a length that is not the total neuron count")
+			}
+			add(e)
+		case *ssa.Store:
+			if f := m.ownerField(x.Addr); f != nil {
+				if _, isSlice := f.Type().Underlying().(*types.Slice); isSlice {
+					if mk, isMk := x.Val.(*ssa.MakeSlice); isMk && m.madeFor(mk) == f {
+						return // accounted for at the make
+					}
+					ambiguous(in, f, "the field is assigned "+NewTermer(fn).Of(x.Val).String()+" at "+p.Pos(in.Pos()))
+				}
+				return
+			}
+			ia, ok := x.Addr.(*ssa.IndexAddr)
+			if !ok {
+				return
+			}
+			f, lo, hi, ok := m.arr(ia.X)
+			if !ok {
+				return
+			}
+			if il == nil || lo != nil || hi != nil {
+				ambiguous(in, f, "single element (or resliced) store at "+p.Pos(in.Pos()))
+				return
+			}
+			if loopStores[il] == nil {
+				loopStores[il] = map[*types.Var][]*ssa.Store{}
+				loopOrder = append(loopOrder, il)
+			}
+			loopStores[il][f] = append(loopStores[il][f], x)
+		case ssa.CallInstruction:
+			c := x.Common()
+			if bi, ok := c.Value.(*ssa.Builtin); ok {
+				if bi.Name() != "copy" || len(c.Args) != 2 {
+					return
+				}
+				f, lo, hi, ok := m.arr(c.Args[0])
+				if !ok {
+					return
+				}
+				if il != nil {
+					ambiguous(in, f, "copy inside a loop at "+p.Pos(in.Pos()))
+					return
+				}
+				e := &c13Event{at: in, anchor: b, must: must(b), arr: f, what: "copy at " + p.Pos(in.Pos())}
+				e.seg = c13Amb("copy at " + p.Pos(in.Pos()) + " whose extent or source cannot be named")
+				g, slo, shi, sok := m.arr(c.Args[1])
+				loSym, sloSym := "0", "0"
+				if lo != nil {
+					loSym = m.sym(fn, lo)
+				}
+				if slo != nil {
+					sloSym = m.sym(fn, slo)
+				}
+				if sok && hi == nil && shi == nil && loSym != "" && loSym == sloSym && c13Pos(loSym) >= 0 &&
+					m.makeLen[f] == "totalNeuronCount" && m.makeLen[g] == "totalNeuronCount" {
+					v := "@" + g.Name() + "[i]"
+					if m.state[g] {
+						v = "?state:" + fn.Name() + ":" + v
+					}
+					for k := range e.seg {
+						if c13Pos(loSym) <= k && k < c13NSeg-1 {
+							e.seg[k] = c13Eff{Kind: 1, Val: v}
+						} else {
+							e.seg[k] = c13Eff{}
+						}
+					}
+				}
+				add(e)
+				return
+			}
+			callee := c.StaticCallee()
+			if callee == nil {
+				return
+			}
+			if !InRepo(callee) || callee.Blocks == nil {
+				return
+			}
+			ws := m.writeSet(callee)
+			if len(ws) == 0 {
+				return
+			}
+			// a method of the solver called on the object: replay it
+			if il == nil && callee.Signature.Recv() != nil && len(c.Args) > 0 && m.isOwner(c.Args[0].Type()) && !m.busy[callee] && callee.Parent() == nil {
+				sub := m.events(callee, false)
+				cm := must(b)
+				e := &c13Event{at: in, anchor: b, must: cm, what: "call of " + callee.Name() + " at " + p.Pos(in.Pos())}
+				for _, s := range sub {
+					cp := *s
+					cp.must = cp.must && cm
+					e.sub = append(e.sub, &cp)
+				}
+				add(e)
+				return
+			}
+			var fs []*types.Var
+			for f := range ws {
+				fs = append(fs, f)
+			}
+			sort.Slice(fs, func(i, j int) bool { return fs[i].Name() < fs[j].Name() })
+			for _, f := range fs {
+				ambiguous(in, f, "written by "+callee.Name()+" called at "+p.Pos(in.Pos()))
+			}
+		case *ssa.MakeClosure:
+			if cf, ok := x.Fn.(*ssa.Function); ok {
+				var fs []*types.Var
+				for f := range m.writeSet(cf) {
+					fs = append(fs, f)
+				}
+				sort.Slice(fs, func(i, j int) bool { return fs[i].Name() < fs[j].Name() })
+				for _, f := range fs {
+					ambiguous(in, f, "written by the closure created at "+p.Pos(in.Pos()))
+				}
+			}
+		}
+	})
+	for _, l := range loopOrder {
+		var fs []*types.Var
+		for f := range loopStores[l] {
+			fs = append(fs, f)
+		}
+		sort.Slice(fs, func(i, j int) bool { return fs[i].Name() < fs[j].Name() })
+		effs := m.loopEffects(fn, l, loops, loopStores[l])
+		for _, f := range fs {
+			first := loopStores[l][f][0]
+			add(&c13Event{at: first, anchor: l.Header, must: must(l.Header), arr: f, seg: effs[f], what: "loop at " + p.Pos(first.Pos())})
+		}
+	}
+	// execution order
+	before := func(a, b *c13Event) bool {
+		if a.anchor != b.anchor {
+			if a.anchor.Dominates(b.anchor) {
+				return true
+			}
+			if b.anchor.Dominates(a.anchor) {
+				return false
+			}
+			return a.at.Pos() < b.at.Pos()
+		}
+		ba, bb := a.at.Block(), b.at.Block()
+		if ba == bb {
+			return instrIndex(a.at) < instrIndex(b.at)
+		}
+		if ba.Dominates(bb) {
+			return true
+		}
+		if bb.Dominates(ba) {
+			return false
+		}
+		return a.at.Pos() < b.at.Pos()
+	}
+	var ordered []*c13Event
+	for _, e := range evs {
+		i := len(ordered)
+		for i > 0 && before(e, ordered[i-1]) {
+			i--
+		}
+		ordered = append(ordered, nil)
+		copy(ordered[i+1:], ordered[i:])
+		ordered[i] = e
+	}
+	var flat []*c13Event
+	for _, e := range ordered {
+		if e.sub != nil {
+			flat = append(flat, e.sub...)
+		} else if e.arr != nil {
+			flat = append(flat, e)
+		}
+	}
+	m.memo[fn] = flat
+	return flat
+}
+
+// loopEffects evaluates what one loop does to the arrays it stores into, per layout range.
+func (m *c13Model) loopEffects(fn *ssa.Function, l *Loop, loops []*Loop, stores map[*types.Var][]*ssa.Store) map[*types.Var][c13NSeg]c13Eff {
+	p := m.p
+	out := map[*types.Var][c13NSeg]c13Eff{}
+	at := ""
+	for _, sts := range stores {
+		if at == "" || p.Pos(sts[0].Pos()) < at {
+			at = p.Pos(sts[0].Pos())
+		}
+	}
+	all := func(why string) map[*types.Var][c13NSeg]c13Eff {
+		for f := range stores {
+			out[f] = c13Amb(why)
+		}
+		return out
+	}
+	if len(OuterLoops(loops, l.Header)) > 1 {
+		return all("the loop at " + at + " is nested in another loop")
+	}
+	it, ok := c13IterOf(l, func(v ssa.Value) bool {
+		for _, sts := range stores {
+			for _, st := range sts {
+				if st.Addr.(*ssa.IndexAddr).Index == v {
+					return true
+				}
+			}
+		}
+		return false
+	})
+	if !ok {
+		return all("the loop at " + at + " has no counter that goes up by one in every iteration")
+	}
+	initPos := 0
+	for i, iv := range it.Inits {
+		q := c13Pos(m.sym(fn, iv))
+		if q < 0 || (i > 0 && q != initPos) {
+			return all("the loop at " + at + " starts at " + NewTermer(fn).Of(iv).String() + ", which is not a (single) bound of the neuron layout")
+		}
+		initPos = q
+	}
+	paths, complete := EnumIterPaths(fn, l, 400)
+	if !complete {
+		return all("the loop at " + at + " has too many paths")
+	}
+	storeArr := map[*ssa.Store]*types.Var{}
+	for f, sts := range stores {
+		for _, st := range sts {
+			storeArr[st] = f
+		}
+	}
+	// allRun: every range between the start of the counter and the one under evaluation is passed completely
+	// (no iteration with a counter in it can leave the loop), so the counter does arrive at the range
+	allRun := true
+	for k := 0; k < c13NSeg; k++ {
+		set := func(f *types.Var, e c13Eff) {
+			s := out[f]
+			s[k] = e
+			out[f] = s
+		}
+		if initPos >= k+1 {
+			continue // the counter starts behind this range
+		}
+		backPossible, otherPossible, otherWrites := false, false, false
+		type res struct {
+			has bool
+			val string
+			bad string
+		}
+		perArr := map[*types.Var][]res{}
+		for _, ip := range paths {
+			feasible := true
+			for _, g := range ip.Conds {
+				if v, known := m.evalCmp(fn, g.Cond, it.Idx, k); known && v != g.True {
+					feasible = false
+					break
+				}
+			}
+			if !feasible {
+				continue
+			}
+			last := map[*types.Var]res{}
+			n := len(ip.Blocks)
+			if ip.End == "back" {
+				n-- // the final header revisit belongs to the next iteration
+			}
+			for _, b := range ip.Blocks[:n] {
+				for _, in := range b.Instrs {
+					st, isSt := in.(*ssa.Store)
+					if !isSt {
+						continue
+					}
+					f, mine := storeArr[st]
+					if !mine {
+						continue
+					}
+					ia := st.Addr.(*ssa.IndexAddr)
+					if ia.Index != it.Idx {
+						last[f] = res{has: true, bad: "the store at " + p.Pos(st.Pos()) + " writes index " + NewTermer(fn).Of(ia.Index).String() + ", not the loop counter"}
+						continue
+					}
+					if last[f].bad == "" {
+						last[f] = res{has: true, val: m.val(fn, ip, st.Val, it.Idx, k, 0)}
+					}
+				}
+			}
+			if ip.End == "back" {
+				backPossible = true
+				for f := range stores {
+					perArr[f] = append(perArr[f], last[f])
+				}
+			} else {
+				otherPossible = true
+				if len(last) > 0 {
+					otherWrites = true
+				}
+			}
+		}
+		switch {
+		case !backPossible && !otherWrites:
+			// no iteration with a counter in this range runs to its end, and none writes before leaving: whether or
+			// not the counter arrives here, the range stays untouched
+			allRun = false
+		case !backPossible || otherPossible:
+			allRun = false
+			for f := range stores {
+				set(f, c13Eff{Kind: 2, Val: "for counters in " + c13SegName(k) + " it is not decided whether the loop at " + at + " goes on or is left"})
+			}
+		case !allRun:
+			// the iterations would run, but the loop may have been left in an earlier range (unless that range is empty)
+			for f := range stores {
+				set(f, c13Eff{Kind: 2, Val: "the loop at " + at + " may be left before its counter arrives at " + c13SegName(k)})
+			}
+		default:
+			for f := range stores {
+				rs := perArr[f]
+				n, v, bad, mixed := 0, "", "", false
+				for _, r := range rs {
+					if r.bad != "" {
+						bad = r.bad
+					}
+					if r.has {
+						n++
+						if v == "" {
+							v = r.val
+						} else if v != r.val {
+							mixed = true
+						}
+					}
+				}
+				switch {
+				case bad != "":
+					set(f, c13Eff{Kind: 2, Val: bad})
+				case n == 0:
+				case n == len(rs) && !mixed:
+					if c13Opaque(v) {
+						set(f, c13Eff{Kind: 2, Val: "the loop at " + at + " stores a value that cannot be named (" + v + ")"})
+					} else {
+						set(f, c13Eff{Kind: 1, Val: v})
+					}
+				default:
+					set(f, c13Eff{Kind: 2, Val: "for counters in " + c13SegName(k) + " the loop at " + at + " stores on some paths only, or different values"})
+				}
+			}
+		}
+	}
+	for f := range stores {
+		if _, ok := out[f]; !ok {
+			out[f] = [c13NSeg]c13Eff{}
+		}
+	}
+	return out
+}
+
+// final replays the events: what every array holds, per layout range, when fn returns.
+func (m *c13Model) final(fn *ssa.Function, ctor bool) map[*types.Var]*[c13NSeg]c13Eff {
+	st := map[*types.Var]*[c13NSeg]c13Eff{}
+	for _, e := range m.events(fn, ctor) {
+		s := st[e.arr]
+		if s == nil {
+			s = &[c13NSeg]c13Eff{}
+			st[e.arr] = s
+		}
+		for k := 0; k < c13NSeg; k++ {
+			eff := e.seg[k]
+			switch eff.Kind {
+			case 1:
+				if e.must {
+					s[k] = eff
+				} else if !(s[k].Kind == 1 && s[k].Val == eff.Val) {
+					s[k] = c13Eff{Kind: 2, Val: "the " + e.what + " is not on every path"}
+				}
+			case 2:
+				s[k] = eff
+			}
+		}
+	}
+	return st
+}
+
+// c13SolverCtors: the functions that build a solver (allocate the struct and return it).
+func c13SolverCtors(p *Prog, owner *types.Named) []*ssa.Function {
+	var out []*ssa.Function
+	for _, fn := range p.SrcFuncs() {
+		if fn.Pkg == nil || fn.Pkg.Pkg.Path() != PkgN || fn.Parent() != nil {
+			continue
+		}
+		res := fn.Signature.Results()
+		returns := false
+		for i := 0; i < res.Len(); i++ {
+			if n, _ := deref(res.At(i).Type()).(*types.Named); n == owner {
+				returns = true
+			}
+		}
+		if !returns {
+			continue
+		}
+		allocs := false
+		Instrs(fn, func(_ *ssa.BasicBlock, _ int, in ssa.Instruction) {
+			if a, ok := in.(*ssa.Alloc); ok {
+				if n, _ := deref(a.Type()).(*types.Named); n == owner {
+					allocs = true
+				}
+			}
+		})
+		if allocs {
+			out = append(out, fn)
+		}
+	}
+	return out
+}
+
+// c13ShowVal renders a canonical value for messages.
+func c13ShowVal(v string) string {
+	switch v {
+	case "0":
+		return "0/false"
+	}
+	return strings.ReplaceAll(v, "@", "solver.")
+}
+
+// c13FlushCoversNonBias states the fact of the obligation Fast.Flush.bounds for any spelling of the reset: every
+// element of the named arrays with an index in [biasNeuronCount, totalNeuronCount) is zero when Flush returns, and
+// the elements in [0, biasNeuronCount) are untouched or hold what the constructor leaves there. "" when it holds.
+func c13FlushCoversNonBias(p *Prog, arrays []string) string { return c13FlushRestores(p, arrays, true) }
+
+// c13FlushRestores: every element of the named arrays with an index in [biasNeuronCount, totalNeuronCount) holds, when
+// Flush returns, the value every constructor leaves there (and that value is zero if zeroOnly), and the elements in
+// [0, biasNeuronCount) are untouched or hold the constructor's value as well. "" when it holds, else the reason.
+func c13FlushRestores(p *Prog, arrays []string, zeroOnly bool) string {
+	owner := p.Named(PkgN, "FastModularNetworkSolver")
+	flush := p.Func(PkgN, "FastModularNetworkSolver.Flush")
+	ctors := c13SolverCtors(p, owner)
+	if len(ctors) == 0 {
+		return "no constructor of the solver found"
+	}
+	m := newC13Model(p, owner)
+	for _, fld := range p.Fields(PkgN, "FastModularNetworkSolver") {
+		// values read from the arrays under test are not stable
+		for _, name := range arrays {
+			if fld.Name() == name {
+				m.state[fld] = true
+			}
+		}
+	}
+	for _, c := range ctors {
+		m.learnCtor(c)
+	}
+	fl := m.final(flush, false)
+	for _, name := range arrays {
+		var st *[c13NSeg]c13Eff
+		var fld *types.Var
+		for f, s := range fl {
+			if f.Name() == name {
+				st, fld = s, f
+			}
+		}
+		if st == nil {
+			return "Flush does not write " + name
+		}
+		for k := 0; k < c13NSeg; k++ {
+			switch {
+			case st[k].Kind == 0 && (k == 0 || k == c13NSeg-1):
+				continue
+			case k == c13NSeg-1:
+				return "Flush may write " + name + "[i] for i in " + c13SegName(k) + ", behind the last neuron: " + st[k].Val
+			case st[k].Kind == 0:
+				return name + "[i] is left untouched for i in " + c13SegName(k)
+			case st[k].Kind == 2:
+				return "what Flush leaves in " + name + "[i] for i in " + c13SegName(k) + " cannot be established: " + st[k].Val
+			case zeroOnly && k > 0 && st[k].Val != "0":
+				return name + "[i] is set to " + c13ShowVal(st[k].Val) + " for i in " + c13SegName(k)
+			}
+			for _, c := range ctors {
+				cs := m.final(c, true)
+				if cs[fld] == nil || cs[fld][k].Kind != 1 || cs[fld][k].Val != st[k].Val {
+					return "Flush sets " + name + "[i] to " + c13ShowVal(st[k].Val) + " for i in " + c13SegName(k) + ", which is not what " + c.Name() + " leaves there"
+				}
+			}
+		}
+	}
+	return ""
+}
+
+// c13SliceField: the struct field whose slice value v is (after any reslicing), nil if v is something else.
+func c13SliceField(v ssa.Value) *types.Var {
+	for i := 0; i < 6; i++ {
+		switch x := v.(type) {
+		case *ssa.Slice:
+			v = x.X
+			continue
+		case *ssa.ChangeType:
+			v = x.X
+			continue
+		case *ssa.UnOp:
+			if x.Op == token.MUL {
+				if fa, ok := x.X.(*ssa.FieldAddr); ok {
+					return fieldOf(fa.X.Type(), fa.Field)
+				}
+			}
+		case *ssa.Field:
+			return fieldOf(x.X.Type(), x.Field)
+		}
+		break
+	}
+	return nil
+}
+
+// c13LoadedField: v is a load of obj.F (obj accepted by isObj); the name of F, else "".
+func c13LoadedField(v ssa.Value, isObj func(ssa.Value) bool) string {
+	for i := 0; i < 4; i++ {
+		switch x := v.(type) {
+		case *ssa.Convert:
+			v = x.X
+			continue
+		case *ssa.ChangeType:
+			v = x.X
+			continue
+		}
+		break
+	}
+	u, ok := v.(*ssa.UnOp)
+	if !ok || u.Op != token.MUL {
+		return ""
+	}
+	fa, ok := u.X.(*ssa.FieldAddr)
+	if !ok || !isObj(fa.X) {
+		return ""
+	}
+	return fieldOf(fa.X.Type(), fa.Field).Name()
+}
+
+// c13DeadAfterReset: the branch outcome g cannot occur while the fields named in zeroed of the object hold their
+// zero value: g requires `obj.F op k` (or the boolean obj.F itself) and `0 op k` is false.
+func c13DeadAfterReset(g Guard, isObj func(ssa.Value) bool, zeroed map[string]bool) bool {
+	c, neg := c13StripNot(g.Cond)
+	outcome := g.True
+	if neg {
+		outcome = !outcome
+	}
+	if f := c13LoadedField(c, isObj); f != "" && zeroed[f] {
+		return outcome // the branch needs the flag to be set
+	}
+	// the comparison is evaluated for the concrete value 0 (exact for floating point too)
+	bin, ok := c.(*ssa.BinOp)
+	if !ok {
+		return false
+	}
+	op := bin.Op
+	switch op {
+	case token.EQL, token.NEQ, token.LSS, token.LEQ, token.GTR, token.GEQ:
+	default:
+		return false
+	}
+	zero := constant.MakeInt64(0)
+	fx, fy := c13LoadedField(bin.X, isObj), c13LoadedField(bin.Y, isObj)
+	var k *ssa.Const
+	switch {
+	case fx != "" && zeroed[fx]:
+		k, _ = bin.Y.(*ssa.Const)
+	case fy != "" && zeroed[fy]:
+		k, _ = bin.X.(*ssa.Const)
+		op = map[token.Token]token.Token{token.EQL: token.EQL, token.NEQ: token.NEQ, token.LSS: token.GTR, token.GTR: token.LSS, token.LEQ: token.GEQ, token.GEQ: token.LEQ}[op]
+	}
+	if k == nil || k.Value == nil {
+		return false
+	}
+	var val bool
+	switch k.Value.Kind() {
+	case constant.Int, constant.Float:
+		val = constant.Compare(zero, op, k.Value)
+	case constant.Bool:
+		switch op {
+		case token.EQL:
+			val = !constant.BoolVal(k.Value)
+		case token.NEQ:
+			val = constant.BoolVal(k.Value)
+		default:
+			return false
+		}
+	default:
+		return false
+	}
+	return val != outcome
+}
+
+// c13LiveErrorReturns lists the returns of fn (a check of one node, result 0 an error) that hand out a non-nil error
+// and are not dead while the receiver's fields named in zeroed hold zero.
+func c13LiveErrorReturns(p *Prog, fn *ssa.Function, zeroed map[string]bool) []string {
+	var out []string
+	if len(fn.Params) == 0 {
+		return []string{"no receiver"}
+	}
+	recv := fn.Params[0]
+	isObj := func(v ssa.Value) bool { return v == ssa.Value(recv) }
+	dead := func(gs []Guard) bool {
+		for _, g := range gs {
+			if c13DeadAfterReset(g, isObj, zeroed) {
+				return true
+			}
+		}
+		return false
+	}
+	var visit func(v ssa.Value, at *ssa.BasicBlock, gs []Guard, pos token.Pos, depth int)
+	visit = func(v ssa.Value, at *ssa.BasicBlock, gs []Guard, pos token.Pos, depth int) {
+		if c, isC := v.(*ssa.Const); isC && c.Value == nil {
+			return
+		}
+		if ph, isPhi := v.(*ssa.Phi); isPhi && depth < 6 {
+			for i, e := range ph.Edges {
+				visit(e, ph.Block().Preds[i], condsAt(ph.Block().Preds[i], ph.Block()), pos, depth+1)
+			}
+			return
+		}
+		if !dead(gs) {
+			out = append(out, p.Pos(pos))
+		}
+	}
+	for _, b := range fn.Blocks {
+		if len(b.Instrs) == 0 {
+			continue
+		}
+		if ret, ok := b.Instrs[len(b.Instrs)-1].(*ssa.Return); ok && len(ret.Results) > 0 {
+			visit(ret.Results[len(ret.Results)-1], b, Guards(b), ret.Pos(), 0)
+		}
+	}
+	return out
 }
